@@ -777,14 +777,15 @@ func (ex *Exec) indexAddr(x Value, idx *Term, idxT types.Type) Value {
 func (ex *Exec) makeSlice(elemT types.Type, ln, cp *Term, lt types.Type) Value {
 	ln = ex.toInt(ln, lt)
 	cp = ex.toInt(cp, lt)
-	// negative or huge -> panic
-	lim := ex.ts.Const(64, 1<<40)
+	// Go's own failure: negative length, cap < len, or beyond the runtime's maximum allocation
+	lim := ex.ts.Const(64, 1<<47)
 	bad := ex.ts.Or(ex.ts.Bin(OpSLt, ln, ex.ts.Const(64, 0)), ex.ts.Or(ex.ts.Bin(OpSLt, cp, ln), ex.ts.Bin(OpSLt, lim, cp)))
 	if ex.decide(bad) {
 		panic(goPanic{"makeslice: len out of range"})
 	}
-	if !cp.IsConst() && ex.decide(ex.ts.Bin(OpSLt, ex.ts.Const(64, 1<<31), cp)) {
-		panic(goPanic{"allocation of peer-controlled unbounded size (> 2 GiB)"})
+	// monitor: an allocation whose size is symbolic (derived from an input) must stay below 2 GiB + 64 KiB
+	if ex.decide(ex.ts.Bin(OpSLt, ex.ts.Const(64, 1<<31+1<<16), cp)) {
+		panic(goPanic{"allocation of more than 2 GiB on the strength of an input-derived length"})
 	}
 	if !cp.IsConst() {
 		// bound for the explored remainder: sizes up to 8 (stated bound)
